@@ -22,7 +22,7 @@ Fixpoint key_index (tbl : ktable) (k : bytes) : option nat :=
   | (i, k') :: t => if bytes_eqb k k' then Some (N.to_nat i) else key_index t k
   end.
 Definition key_idx (tbl : ktable) (k : bytes) : nat :=
-  match key_index tbl k with Some i => i | None => 1000000 end.
+  match key_index tbl k with Some i => i | None => 4096 end.
 
 Definition k_a_id : nat := key_idx dht [97;58;58;105;100;42;83].                       (* "a::id*S" *)
 Definition k_q : nat := key_idx dht [113;42;83].                                        (* "q*S" *)
@@ -494,3 +494,46 @@ Definition search_run (own t : N) (init : list (N * addr)) (replies : list (N * 
                     | POk recs => let '(s', q) := search_reply own t s (fst rp) recs in (s', outs ++ [q])
                     | _ => (s, outs ++ [[]])
                     end) replies (s0, [q0])).
+
+(* ------------------------------------------------------------------ UDP tracker whose host name is still being
+   resolved: UdpRouter::connect(hostname, …) registers the connection with address == nullptr and hands the name
+   to the resolver; until resolved_hostname() runs, event_read() drops every datagram for that connection
+   (`if (itr->second.address == nullptr) continue;`), whatever its sender, length, action or transaction id *)
+Definition router_read_dns (resolved : bool) (u : udp) (from_ok : bool) (dgram : bytes) : udp * tevent :=
+  if resolved then router_read u from_ok dgram else (u, EvDrop).
+
+Definition udp_run_pending (v6 : bool) (other_tx : N) (dgrams : list (bool * bytes)) : udp * list tevent :=
+  fold_left (fun st d => let '(u, evs) := st in
+                         let '(u', e) := router_read_dns false u (fst d) (snd d) in (u', evs ++ [e]))
+            dgrams (udp0 v6 other_tx, []).
+
+(* ------------------------------------------------------------------ several announces on one TrackerHttp object
+   TrackerHttp::send_event resets the per-request flags (m_last_success = false, m_last_error_message = "") and
+   recomputes the families from the network configuration; the interval / scrape state is kept *)
+Inductive fam_config := FamBoth | FamOne | FamNone.   (* both allowed / one of them blocked / both blocked *)
+
+(* "No valid address family available." *)
+Definition m_no_family : bytes :=
+  [78;111;32;118;97;108;105;100;32;97;100;100;114;101;115;115;32;102;97;109;105;108;121;32;97;118;97;105;108;97;98;108;101;46].
+
+Definition http_announce (ih : bytes) (event : N) (ts : tstate) (cfg : fam_config) (bodies : list bytes)
+  : tstate * list hevent :=
+  match cfg with
+  | FamNone => (ts, [HEv (EvFailure m_no_family)])
+  | _ =>
+      let h0 := mkHs ts (match cfg with FamBoth => true | _ => false end) false [] in
+      let '(h, evs, _) :=
+        fold_left (fun st b =>
+                     let '(h, evs, isopen) := st in
+                     if (isopen : bool) then
+                       let '(h', e) := http_step ih event h b in
+                       (h', evs ++ [e], match e with HRetry => true | HEv (EvNewPeers _) => true | _ => false end)
+                     else (h, evs, false))
+                  bodies (h0, [], true) in
+      (h_ts h, evs)
+  end.
+
+Definition http_announces (ih : bytes) (event : N) (anns : list (fam_config * list bytes)) : tstate * list (list hevent) :=
+  fold_left (fun st a => let '(ts, outs) := st in
+                         let '(ts', evs) := http_announce ih event ts (fst a) (snd a) in (ts', outs ++ [evs]))
+            anns (tstate0, []).
